@@ -24,6 +24,7 @@ import (
 	"fmt"
 	"io"
 	"net/http"
+	"net/url"
 	"strconv"
 	"strings"
 	"time"
@@ -641,6 +642,7 @@ func (s *S3Proxy) UploadPartCopy(ctx context.Context, input *s3.UploadPartCopyIn
 		input.SSECustomerKeyMD5 = nil
 	}
 
+	input.CopySource = encodeCopySource(input.CopySource)
 	output, err := s.client.UploadPartCopy(ctx, input)
 	if err != nil {
 		return s3response.CopyPartResult{}, handleError(err)
@@ -1105,7 +1107,7 @@ func (s *S3Proxy) CopyObject(ctx context.Context, input s3response.CopyObjectInp
 		&s3.CopyObjectInput{
 			Metadata:                       input.Metadata,
 			Bucket:                         input.Bucket,
-			CopySource:                     input.CopySource,
+			CopySource:                     encodeCopySource(input.CopySource),
 			Key:                            input.Key,
 			CacheControl:                   input.CacheControl,
 			ContentDisposition:             input.ContentDisposition,
@@ -1522,6 +1524,26 @@ func (s *S3Proxy) ListBucketsAndOwners(ctx context.Context) ([]s3response.Bucket
 	}
 
 	return buckets, nil
+}
+
+// encodeCopySource URL-encodes a copy source (bucket/key[?versionId=id]) for the
+// request to the endpoint: the gateway hands it over decoded, and a key with
+// characters like space, '+', '%' or '&' is not a valid header value as is.
+func encodeCopySource(src *string) *string {
+	if src == nil {
+		return nil
+	}
+	path, version := *src, ""
+	if i := strings.LastIndex(path, "?versionId="); i >= 0 {
+		path, version = path[:i], path[i:]
+	}
+	segs := strings.Split(path, "/")
+	for i, seg := range segs {
+		// (a '+' has to be escaped too: the receiving side decodes it as a space)
+		segs[i] = strings.ReplaceAll(url.QueryEscape(seg), "+", "%20")
+	}
+	enc := strings.Join(segs, "/") + version
+	return &enc
 }
 
 func handleError(err error) error {
